@@ -430,6 +430,7 @@ def check(c):
             val_idx.append(i)
             val_lines.append('@noapprox ((%s / (1 %s)) to unitless) to fraction' % (texts[i], den) if den else '@noapprox (%s to unitless) to fraction' % texts[i])
     vals = dict(zip(val_idx, l2(c, val_lines)))
+    c.dist['exact-value-checked'] = len(val_idx)
     nbad = 0
     known_mix = 0
     for i, (x, txt, sp, e, z) in enumerate(zip(trees, texts, specs, ev, zz)):
@@ -520,6 +521,7 @@ def check(c):
         if iv[0] == 'unsupported':
             c.dist['impl-complex-result'] = c.dist.get('impl-complex-result', 0) + 1
             continue
+        c.dist['raw-result-compared'] = c.dist.get('raw-result-compared', 0) + 1
         if mv[0] == 'ok' and iv[0] == 'ok':
             same = U.value_same(mv[1], iv[1]) or (not mv[1]['exact'] and not iv[1]['exact'] and same_units(mv[1], iv[1]))
         elif mv[0] == 'err' and iv[0] == 'err':
